@@ -185,6 +185,10 @@ func C12(run *report.Run) {
 		BaseOutcome map[string]string            `json:"baseOutcome"`
 		MaxKeys     int                          `json:"maxKeys"`
 		Reduced     int64                        `json:"reduced"`
+		Bound2Runs      int64 `json:"bound2Runs"`
+		Bound2UnitsDone int64 `json:"bound2UnitsDone"`
+		Bound2Units     int64 `json:"bound2Units"`
+		Bound2Capped    bool  `json:"bound2Capped"`
 	}
 	outs := make([]outT, shards)
 	var wg sync.WaitGroup
@@ -196,7 +200,7 @@ func C12(run *report.Run) {
 			defer wg.Done()
 			sc := filepath.Join(env.Scratch, fmt.Sprintf("shard%d", k))
 			os.MkdirAll(sc, 0o755)
-			job := map[string]any{"specs": specs, "bound2": run.Tier == "thorough", "shard": k, "shards": shards, "scratch": sc}
+			job := map[string]any{"specs": specs, "bound2": run.Tier == "thorough", "bound2Seconds": 1200, "shard": k, "shards": shards, "scratch": sc}
 			jf := filepath.Join(sc, "job.json")
 			bs, _ := json.Marshal(job)
 			os.WriteFile(jf, bs, 0o644)
@@ -227,8 +231,14 @@ func C12(run *report.Run) {
 	seenV := map[string]bool{}
 	maxKeys := 0
 	var reduced int64
+	var b2runs, b2done, b2units int64
+	b2capped := false
 	for k, o := range outs {
 		runs += o.Runs
+		b2runs += o.Bound2Runs
+		b2done += o.Bound2UnitsDone
+		b2units += o.Bound2Units
+		b2capped = b2capped || o.Bound2Capped
 		if k == 0 {
 			for s, n := range o.Sites {
 				siteHits[s] = n
@@ -271,6 +281,14 @@ func C12(run *report.Run) {
 	run.Cov["site_hits"] = siteHits
 	run.Cov["max_keys_at_a_point"] = maxKeys
 	run.Cov["points_with_reduced_permutation_set"] = reduced
+	if run.Tier == "thorough" {
+		run.Cov["bound2_pair_runs"] = b2runs
+		run.Cov["bound2_first_deviations_completed"] = b2done
+		run.Cov["bound2_first_deviations_total"] = b2units
+		if b2capped {
+			run.Cap(fmt.Sprintf("bound-2 pair pass stopped at its 1200 s budget per shard: %d of %d first deviations (goag point × {swap, reversal}) had every later goag point deviated too; bound 1 is complete", b2done, b2units))
+		}
+	}
 	var unreached []string
 	for _, s := range sites {
 		hit := false
@@ -284,7 +302,7 @@ func C12(run *report.Run) {
 		}
 	}
 	run.Cov["goag_sites_not_reached"] = unreached
-	run.Cov["rule"] = "state = one complete generator run under one schedule of map iteration orders; a schedule point = one dynamic range over a map (or maps.Keys call) with >= 2 keys in goag or kin-openapi openapi3/jsoninfo, rewritten from the current sources and substituted by go build -overlay; explored: every permutation (n! for n <= 5, else transpositions+reversal+rotations) at every point with all other points sorted (bound 1), in thorough also every pair of points inside goag's packages (bound 2); oracle = outcome and sha256 of every written file equal the all-sorted run"
+	run.Cov["rule"] = "state = one complete generator run under one schedule of map iteration orders; a schedule point = one dynamic range over a map (or maps.Keys call) with >= 2 keys in goag or kin-openapi openapi3/jsoninfo, rewritten from the current sources and substituted by go build -overlay; explored: every permutation (n! for n <= 5, else transpositions+reversal+rotations) at every point with all other points sorted (bound 1), in thorough also pairs of points inside goag's packages (bound 2: the swap and the reversal order at a first point × the same two orders at every later point, within a time budget that the evidence reports); oracle = outcome and sha256 of every written file equal the all-sorted run"
 	run.Assumptions = []string{"x/tools/imports, text/template, yaml and encoding/json are not instrumented (they sort or are re-sorted by goag); the repeated uninstrumented CLI runs are the only check on them", "TEMPLATE_DEBUG is pinned empty"}
 	_ = cells.Base
 	_ = genrun.Success
